@@ -57,6 +57,13 @@ PROPERTIES
   Act_C08_Callback
   Act_C08_Funds
   Act_C13_OnceOnTime
+  Act_C07_RequestRecords
+  Act_C07_WithdrawTo
+  Act_C08_OneOutcomeH
+  Act_C08_AuthorityH
+  Act_C08_ScheduleH
+  Act_C08_BatchDue
+  Act_C13_QueueH
   Act_X07_RefundTiming
   Act_X07_EnableDisable
   Act_X07_MinDeposit
